@@ -22,7 +22,6 @@ import time
 VERIF = os.path.dirname(os.path.dirname(os.path.abspath(__file__)))
 SPEC = os.path.join(VERIF, "spec")
 HARNESS = os.environ.get("VERIF_HARNESS_DIR") or os.path.join(VERIF, "harness")
-DRIVE = os.path.join(HARNESS, "target", "release", "drive")
 TLA_JAR = "/opt/veriftools/tla/tla2tools.jar:/opt/veriftools/tla/CommunityModules-deps.jar"
 NCPU = os.cpu_count() or 4
 
@@ -35,11 +34,15 @@ def log(msg):
     print("[check] " + msg, flush=True)
 
 
-def build_harness():
+def build_harness(fams):
+    """Build only the binaries of the families this check drives (src/bin/<fam>.rs)."""
     t0 = time.time()
     env = dict(os.environ)
     env["CARGO_NET_OFFLINE"] = "true"
-    p = subprocess.run(["cargo", "build", "--release", "--offline", "--quiet"], cwd=HARNESS,
+    cmd = ["cargo", "build", "--release", "--offline", "--quiet"]
+    for f in fams:
+        cmd += ["--bin", f]
+    p = subprocess.run(cmd, cwd=HARNESS,
                        stdout=subprocess.PIPE, stderr=subprocess.STDOUT, text=True, env=env)
     if p.returncode != 0:
         sys.stdout.write(p.stdout[-6000:])
@@ -111,7 +114,7 @@ def run_driver_shard(fam, tier, seed, shard, nshards, outbase, extra, max_restar
     skip = 0
     for attempt in range(max_restarts + 1):
         out = "%s.%d.log" % (outbase, attempt)
-        cmd = [DRIVE, fam, "--tier", tier, "--seed", str(seed), "--shard", "%d/%d" % (shard, nshards),
+        cmd = [os.path.join(HARNESS, "target", "release", fam), "--tier", tier, "--seed", str(seed), "--shard", "%d/%d" % (shard, nshards),
                "--out", out, "--skip", str(skip)]
         if budget:
             cmd += ["--budget", str(budget)]
